@@ -98,10 +98,15 @@ async def _scenario(sc):
             in_send.send_nowait(obj)
 
     async def caller(k):
-        cid, D = callers[k]
+        cid, D = callers[k][0], callers[k][1]
+        kw = {}
+        if len(callers[k]) > 2 and callers[k][2] is not None:
+            # the application withdraws this request at tick callers[k][2] (from another task)
+            kw["cancellation_token"] = tok = sm.CancellationToken()
+            loop.call_at(t0 + callers[k][2] * A.TICK, tok.cancel)
         try:
             r = await sm.send_message(Tap(in_recv, k, log, index), out_send, "tools/call", {"k": k},
-                                      timeout=D * A.TICK, message_id=cid)
+                                      timeout=D * A.TICK, message_id=cid, **kw)
             results[k] = (("ret", r["tok"]) if isinstance(r, dict) and set(r) == {"tok"} else ("ret-other", repr(r)[:120]),
                           (loop.time() - t0) / A.TICK)
         except sm.RetryableError as e:
@@ -110,6 +115,8 @@ async def _scenario(sc):
             results[k] = (("err", False, e.code), (loop.time() - t0) / A.TICK)
         except TimeoutError:
             results[k] = (("timeout",), (loop.time() - t0) / A.TICK)
+        except sm.CancelledError:
+            results[k] = (("cancelled",), (loop.time() - t0) / A.TICK)
 
     def deliver(n, m):
         obj = A.build_message(resolve(m, callers), None, None)
@@ -182,6 +189,19 @@ def gen(ctx):
                 arr = [(t + gap * k, ("res", ("caller", k), 100 + k)) for k in range(len(ds)) if t + gap * k < ds[k] - 2]
                 if arr:
                     out.append({"callers": [(names[k], ds[k]) for k in range(len(ds))], "arrivals": arr})
+    # one caller WITHDRAWS its request (cancellation token, triggered from another task); the other callers' answers arrive
+    # well after the cancelled call has ended (it ends at its next 0.5 s poll at the latest): they reach their callers
+    for cancel_at in (5, 20, 49, 60):
+        gone = 50 * (cancel_at // 50 + 1)                   # the poll instant at which the cancelled call is over at the latest
+        for t in range(gone + 5, gone + 100, ctx.budget(10, 5)):
+            for who in (0, 1):
+                cs = [("a", 600), ("b", 600)]
+                cs[who] = (cs[who][0], 600, cancel_at)
+                out.append({"callers": cs, "arrivals": [(t, ("res", ("caller", 1 - who), 100 + (1 - who)))]})
+                # ... also behind a notification (which the only waiter left takes, discards, and waits again)
+                out.append({"callers": cs, "arrivals": [(t, ("notif",)), (t + 2, ("res", ("caller", 1 - who), 100 + (1 - who)))]})
+            out.append({"callers": [("a", 600, cancel_at), ("b", 600), ("c", 600)],
+                        "arrivals": [(t, ("res", ("caller", 1), 101)), (t + 2, ("res", ("caller", 2), 102))]})
     for _ in range(ctx.budget(300, 6000)):
         n = rng.choice((2, 3, 4))
         callers = [(names[k], rng.choice((60, 100, 300))) for k in range(n)]
@@ -217,7 +237,8 @@ def explore(ctx, model, spec):
         # the FIFO wake-up model: for histories that are over before the first poll instant (0.5 s = 50 ticks) the recorded
         # log - who dequeued the n-th object - is exactly fifo_log of the arrivals with all callers waiting in request order
         fifo_rows = [(sc, log) for sc, _r, log in rows
-                     if sc["arrivals"] and all(t < 50 for t, _m in sc["arrivals"]) and all(c[1] > 50 for c in sc["callers"])]
+                     if sc["arrivals"] and all(t < 50 for t, _m in sc["arrivals"]) and all(c[1] > 50 for c in sc["callers"])
+                     and all(len(c) < 3 for c in sc["callers"])]
         fres = model.run([call(1, "(" + " ".join(A.enc_rid(c[0]) for c in sc["callers"]) + ")",
                                "(" + " ".join(A.enc_msg(resolve(m, sc["callers"]), None) for _t, m in sc["arrivals"]) + ")")
                           for sc, _log in fifo_rows])
@@ -256,7 +277,7 @@ def explore(ctx, model, spec):
                     got.append((0, o[1]))
                 elif o[0] == "err":
                     got.append((1, 1 if o[1] else 0, o[2]))
-                elif o[0] == "timeout":
+                elif o[0] in ("timeout", "cancelled"):
                     got.append(None)
                 else:
                     got.append(("other",))
@@ -279,7 +300,14 @@ def explore(ctx, model, spec):
                           if m[0] in ("res", "err") and resolve(m, sc["callers"])[1] == ("int" if isinstance(cid, int) else "str", cid)), None)
             taker = next((j for j, n in log if n == first), None)
             ctx.count("lost-response")
-            if taker is not None and taker != k:
+            tc = sc["callers"][taker] if taker is not None else None
+            if taker is not None and taker != k and len(tc) > 2 and tc[2] is not None and sc["arrivals"][first][0] > 50 * (tc[2] // 50 + 1):
+                # the taker's request had been withdrawn, and the poll at which a withdrawn call ends had passed: it is no
+                # waiter any more - not the recorded finding, which is about PENDING callers
+                ctx.spec_violation("response-taken-by-a-caller-whose-request-was-cancelled-earlier", case,
+                                   f"caller {k} ({cid}) timed out: its response (arrival #{first}, tick {sc['arrivals'][first][0]}) was "
+                                   f"dequeued by caller {taker}, cancelled at tick {tc[2]}")
+            elif taker is not None and taker != k:
                 ctx.spec_violation(IN_ORDER_CLASS if pure_in_order(sc) else KNOWN_CLASS, case, f"caller {k} ({cid}) timed out: its response (arrival #{first}) was dequeued and "
                                                       f"discarded by caller {taker}")
             elif taker == k:
